@@ -309,39 +309,62 @@ func computeGate(c *Ctx) *gateInfo {
 		g.ok = false
 		return g
 	}
-	pf := pe.pf(ct)
 	foundG1 := false
-	for _, b := range ct.Blocks {
-		for _, ins := range b.Instrs {
-			st, ok := ins.(*ssa.Store)
-			if !ok {
-				continue
-			}
-			fa, ok := st.Addr.(*ssa.FieldAddr)
-			if !ok || fieldName(fa.X.Type(), fa.Field) != "ErrorOnCheckSig" {
-				continue
-			}
-			foundG1 = true
-			fs := &factSet{}
-			pf.condFacts(pf.get(st.Val), false, "ErrorOnCheckSig == false", fs, 0)
-			need := map[string]bool{"tx": false, "previousTxOut": false}
-			for _, f := range fs.facts {
-				if f.nonil == "" {
-					continue
-				}
-				n := pf.byKey[f.nonil]
-				if n != nil && n.op == "load" && n.args[0].op == "fieldaddr" && n.args[0].args[0].op == "param" {
-					for k := range need {
-						if strings.HasSuffix(n.args[0].name, "execOpts."+k) {
-							need[k] = true
+	// createThread and the helpers it was split into (functions outside the baseline list it calls)
+	g1Fns := []*ssa.Function{ct}
+	for i := 0; i < len(g1Fns) && i < 6; i++ {
+		for _, b := range g1Fns[i].Blocks {
+			for _, ins := range b.Instrs {
+				if call, ok := ins.(*ssa.Call); ok {
+					if sc := call.Call.StaticCallee(); sc != nil && inlineHelper != nil && inlineHelper(sc) && len(sc.Blocks) > 0 {
+						dup := false
+						for _, f := range g1Fns {
+							if f == sc {
+								dup = true
+							}
+						}
+						if !dup {
+							g1Fns = append(g1Fns, sc)
 						}
 					}
 				}
 			}
-			if need["tx"] && need["previousTxOut"] {
-				c.OK("T-gate", "G1/ErrorOnCheckSig", st.Pos(), "ErrorOnCheckSig is false only when opts.tx != nil and opts.previousTxOut != nil")
-			} else {
-				fail("G1/ErrorOnCheckSig", st.Pos(), fmt.Sprintf("ErrorOnCheckSig == false does not imply opts.tx != nil and opts.previousTxOut != nil (derived: %v): signature opcodes could run without a transaction context", need))
+		}
+	}
+	for _, g1fn := range g1Fns {
+		pf := pe.pf(g1fn)
+		for _, b := range g1fn.Blocks {
+			for _, ins := range b.Instrs {
+				st, ok := ins.(*ssa.Store)
+				if !ok {
+					continue
+				}
+				fa, ok := st.Addr.(*ssa.FieldAddr)
+				if !ok || fieldName(fa.X.Type(), fa.Field) != "ErrorOnCheckSig" {
+					continue
+				}
+				foundG1 = true
+				fs := &factSet{}
+				pf.condFacts(pf.get(st.Val), false, "ErrorOnCheckSig == false", fs, 0)
+				need := map[string]bool{"tx": false, "previousTxOut": false}
+				for _, f := range fs.facts {
+					if f.nonil == "" {
+						continue
+					}
+					n := pf.byKey[f.nonil]
+					if n != nil && n.op == "load" && n.args[0].op == "fieldaddr" && n.args[0].args[0].op == "param" {
+						for k := range need {
+							if strings.HasSuffix(n.args[0].name, "execOpts."+k) {
+								need[k] = true
+							}
+						}
+					}
+				}
+				if need["tx"] && need["previousTxOut"] {
+					c.OK("T-gate", "G1/ErrorOnCheckSig", st.Pos(), "ErrorOnCheckSig is false only when opts.tx != nil and opts.previousTxOut != nil")
+				} else {
+					fail("G1/ErrorOnCheckSig", st.Pos(), fmt.Sprintf("ErrorOnCheckSig == false does not imply opts.tx != nil and opts.previousTxOut != nil (derived: %v): signature opcodes could run without a transaction context", need))
+				}
 			}
 		}
 	}
